@@ -74,4 +74,37 @@ def chainHeap (d : Nat) : Heap String :=
     objs := fun i => ⟨i - 2, i - 1, []⟩,
     next := 3 * d + 4 }
 
+/-- the objects met by following token 0, `k` times, from `o` (with `o` itself first) -/
+def tokPath (h : Heap α) : Nat → Nat → List Nat
+  | 0, o => [o]
+  | k + 1, o => o :: (match h.lists (h.objs o).lst with
+      | .ref n :: _ => tokPath h k n
+      | _ => [])
+
+/-- the sharing pattern of `r.deepcopy()` on the chain of depth `d` (executable; compared with `is`-identity probes
+    on the real class by harness/props/c11.py, stream `deep-sharing`):
+    for every level `0..d` along token 0: is the copy's group the original's group? (expected: never);
+    then: is `g` of the copy's level `d-1` group the ORIGINAL's innermost group / the COPY's innermost group;
+    then: does `as_list()` of the original change when `'z'` is appended to the copy's innermost group reached through
+    the tokens / reached through the name `g`. -/
+def deepShare (d : Nat) : List Bool :=
+  let h := chainHeap d
+  let o := 3 * d + 2
+  let r := deepcopyN d h o
+  let po := tokPath h d o
+  let pc := tokPath r.1 d r.2
+  let same := List.zipWith (fun a b => decide (a = b)) po pc
+  let x' := pc.getD (d - 1) 0
+  let gv : Option Nat := match (view r.1 x').2.1 with
+    | (_, .ref n :: _) :: _ => some n
+    | _ => none
+  let before := asListN (d + 2) r.1 o
+  let viaTok := match pc.getLast? with
+    | some n => decide (asListN (d + 2) (mutate r.1 n (.append (.atom "z"))) o ≠ before)
+    | none => false
+  let viaName := match gv with
+    | some n => decide (asListN (d + 2) (mutate r.1 n (.append (.atom "z"))) o ≠ before)
+    | none => false
+  same ++ [decide (gv = po.getLast? ∧ gv.isSome), decide (gv = pc.getLast? ∧ gv.isSome), viaTok, viaName]
+
 end PP.PRHeap
